@@ -27,12 +27,14 @@ enum Decl {
     Descriptor(u8),
     /// single segment: (content size, field width)
     Single(u64, u8),
+    /// window descriptor and a (small) Frame_Content_Size field: the window is the descriptor's, whatever the frame claims to contain
+    DescriptorFcs(u8, u8, u8),
 }
 
 impl Decl {
     fn window(&self) -> u64 {
         match self {
-            Decl::Descriptor(wd) => spec_window(*wd),
+            Decl::Descriptor(wd) | Decl::DescriptorFcs(wd, _, _) => spec_window(*wd),
             Decl::Single(fcs, _) => *fcs,
         }
     }
@@ -43,6 +45,11 @@ impl Decl {
             Decl::Descriptor(wd) => {
                 f.push(0x00);
                 f.push(*wd);
+            }
+            Decl::DescriptorFcs(wd, fcs, width) => {
+                f.push(if *width == 4 { 0x80 } else { 0xC0 });
+                f.push(*wd);
+                f.extend_from_slice(&u64::from(*fcs).to_le_bytes()[..*width as usize]);
             }
             Decl::Single(fcs, width) => {
                 let flag = match width {
@@ -63,6 +70,7 @@ impl Decl {
         match self {
             Decl::Descriptor(wd) => format!("wd={wd:#04x}"),
             Decl::Single(_, w) => format!("single_segment fcs_width={w}"),
+            Decl::DescriptorFcs(wd, _, w) => format!("wd={wd:#04x} with fcs_width={w}"),
         }
     }
 }
@@ -239,7 +247,7 @@ fn run_case(rec: &Recorder, c: &Case) {
     // StreamingDecoder::new has no way to pass a limit: it uses the default
     let effective = if c.front == Front::StreamingNew { DEFAULT_MAX_WINDOW_SIZE } else { effective };
     let legal = match c.decl {
-        Decl::Descriptor(_) => (1024..=FORMAT_MAX).contains(&window),
+        Decl::Descriptor(_) | Decl::DescriptorFcs(..) => (1024..=FORMAT_MAX).contains(&window),
         Decl::Single(..) => true,
     };
     let expect_accept = legal && window <= effective;
@@ -299,6 +307,8 @@ pub fn run(args: &Args) -> i32 {
     rec.assume("frames are a header followed by an empty last raw block, so that accepted frames complete; on the reuse path windows above 1 GiB are only exercised with limits that reject them (acceptance reserves the window eagerly there)");
 
     let mut decls: Vec<Decl> = (0..=255u8).map(Decl::Descriptor).collect();
+    // every descriptor again in a header that also carries a content size (far below every limit)
+    decls.extend((0..=255u8).map(|wd| Decl::DescriptorFcs(wd, [0u8, 5, 8][wd as usize % 3], if wd % 2 == 0 { 4 } else { 8 })));
     // single segment content sizes in every field width around every boundary
     let mut singles: Vec<(u64, u8)> = Vec::new();
     for v in [0u64, 1, 255] {
